@@ -212,6 +212,7 @@ def dino(prog: Program, rep: Report):
     cfg = fa.cfg
     rep.analysed_add("functions", f"{co.module.relpath}:{co.qualname}")
     _returns_batch(rep, fa, co, "C17.5")
+    _ctx_outputs(rep, fa, co, "C17.5")
     # ---- the list of masks and the loop that fills a prefix of it --------------------------------------------------------
     mask_lists = {}
     for n, var, val in fa.stores():
@@ -394,6 +395,42 @@ def _returns_batch(rep: Report, fa: FA, fi: FuncInfo, clause: str):
                clause=clause)
 
 
+def _ctx_outputs(rep: Report, fa: FA, fi: FuncInfo, clause: str):
+    """Every mask entry the collator ever writes into the context is written on every path that returns with a context."""
+    rep.rule("G8.ctx-outputs", "whenever collate is given a context, every normal return is preceded, on every path, by the store of "
+             "each context entry the collator produces (ctx['mask'] / ctx['encoder_masks'], ctx['predictor_masks']): no early "
+             "return - for an empty masking budget, a batch of one - leaves the batch without its masks")
+    cfg = fa.cfg
+    ps = fi.params()
+    ctxn = "ctx" if "ctx" in ps else None
+    if ctxn is None:
+        return
+    keys = {}
+    for n, nd in cfg.nodes.items():
+        st = nd.ast if nd.kind == "stmt" else None
+        if isinstance(st, ast.Assign):
+            for t in st.targets:
+                if isinstance(t, ast.Subscript) and _n(t.value) == ctxn and isinstance(t.slice, ast.Constant):
+                    keys.setdefault(t.slice.value, set()).add(n)
+    is_none = ("is", tuple(sorted((("const", None), ("param", ctxn)), key=repr)))
+    pruned = fa.prune({is_none: False})
+    pc = pruned.cfg
+    rets = [n for n, nd in pc.nodes.items() if nd.kind == "stmt" and isinstance(nd.ast, ast.Return)]
+    if not keys:
+        rep.unk("G8.ctx-outputs", fi, "entries", "no constant-key store into the context found", clause=clause)
+        return
+    for k, nodes in sorted(keys.items(), key=lambda kv: str(kv[0])):
+        live = {n for n in nodes if n in pc.nodes}
+        bad = [r for r in rets if not pc.must_pass(live, src=pc.entry, dst=r)]
+        ends = bad or ([] if (rets or not pc.reachable(pc.entry, pc.exit)) else [pc.exit])
+        if not rets and pc.reachable(pc.entry, pc.exit) and not pc.must_pass(live, src=pc.entry, dst=pc.exit):
+            ends = [pc.exit]
+        rep.decide(not ends, "G8.ctx-outputs", fi, f"entry:{k}", f"ctx[{k!r}] is stored on every path that returns with a context",
+                   f"a path returns (line {', '.join(str(pc.nodes[r].lineno) for r in ends[:3])}) without storing ctx[{k!r}] although a "
+                   f"context was given: that batch reaches the model without its masks", line=pc.nodes[ends[0]].lineno if ends else 0,
+                   clause=clause)
+
+
 def ijepa(prog: Program, rep: Report):
     prog_nf = prog  # normal form (helpers inlined): used for the offset bounds, which must see draw and slice in one function
     # these helpers are summarised as units (which generator they draw from, what they return); everything else is inlined
@@ -482,7 +519,7 @@ def ijepa(prog: Program, rep: Report):
         loops = [t_ for t_, lab in cfg.control_predicates(n) if cfg.nodes[t_].kind == "next" and lab is True]
         ok = False
         why = "acceptable_regions is not a per-sample list of this sample's predictor complements"
-        if av and len(loops) >= 2:
+        if av and len(loops) >= 1:  # (the loop over the encoder masks may be a comprehension)
             outer = loops[0]
             body = cfg.nodes_inside(cfg.nodes[outer].owner.body)
             defs = [m for m, var, val in fa.stores() if var == av]
@@ -566,6 +603,7 @@ def ijepa(prog: Program, rep: Report):
                                                                 f"from (another kind's minimum is used)") if x) +
                    ": masks of one kind lose their common size", clause="C17.4")
     _returns_batch(rep, fa, co, "C17.5")
+    _ctx_outputs(rep, fa, co, "C17.5")
     # offsets: in the normal form the block samplers are part of collate, so the draw and the slice it feeds are in one function
     # whatever helpers they were written in; helpers that cannot be inlined are looked at one by one
     Cn = prog_nf.cls("KDIjepaMaskCollator")
